@@ -14,12 +14,13 @@ from __future__ import annotations
 
 import os
 import random
+import re
 
 from .core import AnalysisError, Checker
 from . import circuit_model as cm
 from . import semantics
 from .eval_fold import real_model
-from .interp import InterpRaise
+from .interp import Host, InterpRaise
 from .rewrites import FakeGate
 
 TYPES2 = ['AND', 'OR', 'XOR', 'NAND', 'NOR', 'NXOR', 'GT', 'LT', 'GEQ', 'LEQ', 'LIFF', 'RIFF', 'LNOT', 'RNOT']
@@ -499,6 +500,123 @@ def fold_copy_convert(ck: Checker, R: str):
     ck.add_coverage(M.interp)
     ck.check(not probs, R, mod, fn, f'into_bench on a copy leaves the original untouched -- gates, users index, block member lists ({n} circuits with blocks around gates that need helper gates)', '; '.join(probs[:2]),
              construct='copy.copy(circuit).into_bench()')
+
+
+class _HostDigraph(Host):
+    """graphviz.Digraph stand-in: records the node, edge and cluster statements it is given."""
+
+    def __init__(self, name=None, **k):
+        self.name = name
+        self.nodes = []      # node names, in statement order (a name may be stated more than once: re-styling)
+        self.edges = []      # (tail, head)
+        self.subs = []       # nested _HostDigraph
+        self.attrs = []
+
+    def node(self, name, label=None, **k):
+        self.nodes.append(name)
+
+    def edge(self, tail_name, head_name, label=None, **k):
+        self.edges.append((tail_name, head_name))
+
+    def attr(self, kw=None, **k):
+        self.attrs.append(dict(k))
+
+    def subgraph(self, graph=None, name=None, **k):
+        sub = _HostDigraph(name)
+        self.subs.append(sub)
+        return sub
+
+    def __enter__(self):
+        return self
+
+    def __exit__(self, *a):
+        return False
+
+    def clusters(self):
+        out = {}
+        for sg in self.subs:
+            out[sg.name] = sg
+            out.update(sg.clusters())
+        return out
+
+
+_ALIASES = ('IFF', 'LIFF', 'RIFF')
+
+
+def fold_bench_drawing(ck: Checker, R: str):
+    """into_graphviz_digraph(as_bench=True) (the second observation point of C14): the drawing statements are those of the
+    converted copy -- one node per non-buffer gate of the converted circuit, one edge per operand, and every block of the
+    converted circuit as a cluster listing its non-buffer members, helper gates included; the drawn circuit is untouched."""
+    repo = ck.repo
+    M = real_model(repo)
+    it = M.interp
+    it.externals['graphviz.Digraph'] = _HostDigraph
+    it.overrides['graphviz.Digraph'] = _HostDigraph
+    mod = M.mod
+    fn = mod.func('Circuit.into_graphviz_digraph')
+    probs = []
+    n = 0
+    cases = [
+        ([('a', 'INPUT', ()), ('b', 'INPUT', ()), ('lt', 'LT', ('a', 'b')), ('one', 'ALWAYS_TRUE', ()), ('top', 'AND', ('lt', 'one')), ('geq', 'GEQ', ('top', 'a'))], ('geq',),
+         (('outer', ('a', 'b'), ('lt', 'one', 'top'), ('top',)), ('inner', ('a', 'b'), ('lt',), ('lt',)), ('tail', ('top', 'a'), ('geq',), ('geq',)))),
+        ([('a', 'INPUT', ()), ('b', 'INPUT', ()), ('g', 'LT', ('a', 'b')), ('h', 'GEQ', ('g', 'a')), ('t', 'ALWAYS_TRUE', ()), ('k', 'LNOT', ('h', 't'))], ('k', 'g'),
+         (('B', ('a', 'b'), ('g', 'h'), ('h',)), ('C', ('h',), ('t', 'k'), ('k',)))),
+        ([('a', 'INPUT', ()), ('b', 'INPUT', ()), ('x', 'GT', ('a', 'b')), ('y', 'RNOT', ('a', 'x')), ('z', 'OR', ('x', 'y'))], ('z', 'y'), ()),
+        ([('a', 'INPUT', ()), ('b', 'INPUT', ()), ('x', 'LEQ', ('a', 'b')), ('y', 'LIFF', ('x', 'b')), ('z', 'XOR', ('y', 'a'))], ('z',),
+         (('B', ('a', 'b'), ('x', 'y'), ('y',)),)),
+    ]
+    for spec, outs, blocks in cases:
+        for flags in ({'draw_labels': True}, {}, {'draw_blocks': False}):
+            n += 1
+            c = M.build_circuit(spec, outs, blocks)
+            before = cm.snapshot(c)
+            conv = M.build_circuit(spec, outs, blocks)
+            _, err = M.call(conv, 'into_bench')
+            if err:
+                probs.append(f'into_bench raises {err}')
+                continue
+            want = cm.snapshot(conv)
+            g, err = M.call(c, 'into_graphviz_digraph', as_bench=True, **flags)
+            if err or not isinstance(g, _HostDigraph):
+                probs.append(f'into_graphviz_digraph(as_bench=True) raises {err}' if err else 'into_graphviz_digraph does not return the graph it built')
+                continue
+            if cm.snapshot(c) != before:
+                probs.append('drawing with as_bench=True changed the circuit that was drawn')
+                continue
+            # (helper labels carry a random part: compared without it)
+            nz = lambda l: re.sub(r'<uuid\d+>', '<uuid>', l) if isinstance(l, str) else l  # noqa: E731
+            wg = {nz(l): (t, tuple(nz(o) for o in ops)) for l, (t, ops) in want['gates'].items()}
+            want['blocks'] = {b: (bi, [nz(x) for x in bg], bo) for b, (bi, bg, bo) in want['blocks'].items()}
+            g.nodes = [nz(x) for x in g.nodes]
+            g.edges = [(nz(a), nz(b)) for a, b in g.edges]
+            for sg in g.clusters().values():
+                sg.nodes = [nz(x) for x in sg.nodes]
+            drawn = {l for l, (t, ops) in wg.items() if t not in _ALIASES}
+
+            def res(l):
+                t, ops = wg[l]
+                return res(ops[0]) if t in ('IFF', 'LIFF') else res(ops[1]) if t == 'RIFF' else l
+            if set(g.nodes) != drawn:
+                probs.append(f'nodes drawn {sorted(set(g.nodes))} are not the gates of the converted circuit {sorted(drawn)}')
+                continue
+            want_edges = sorted((res(o), l) for l in drawn for o in wg[l][1])
+            if sorted(g.edges) != want_edges:
+                probs.append(f'edges drawn {sorted(g.edges)} are not the operand wires of the converted circuit {want_edges}')
+                continue
+            cl = g.clusters()
+            if flags.get('draw_blocks', True):
+                for bname, (bi, bg, bo) in want['blocks'].items():
+                    sg = cl.get('cluster_' + bname)
+                    members = {l for l in bg if l in wg and wg[l][0] not in _ALIASES}
+                    if sg is None:
+                        probs.append(f'block {bname!r} of the converted circuit is not drawn as a cluster')
+                    elif set(sg.nodes) != members:
+                        probs.append(f'cluster of block {bname!r} lists {sorted(set(sg.nodes))}, the block of the converted circuit has {sorted(members)}')
+            elif cl:
+                probs.append('clusters are drawn although draw_blocks=False')
+    ck.add_coverage(M.interp)
+    ck.check(not probs, R, mod, fn, f'into_graphviz_digraph(as_bench=True) folded with a recording graph ({n} drawings of circuits with nested blocks around gates that need helper gates): nodes, wires and clusters are those of the converted copy, helper gates inside the clusters of their blocks; the drawn circuit is untouched',
+             '; '.join(probs[:2]), construct='into_graphviz_digraph(as_bench=True)')
 
 
 def fold_replace_cases(ck: Checker, R: str):
